@@ -71,6 +71,16 @@ class Report:
             else:
                 new.append(v)
         stale = [k for k in kf if not any(k is h for _, h in matched)]
+        try:
+            from . import facts as _facts
+            progs = {}
+            for view, P in _facts.LOADED:
+                progs[view] = dict(translation_units=list(P.tus), functions_with_body=len(P.funcs), declarations=len(P.decls),
+                                   records=len(P.records), call_graph_edges=sum(len(v) for v in P.calls.values()),
+                                   assertion_macro_expansions=len(P.macros), tree_hash=P.tree_hash)
+            self.analysed["program"] = progs
+        except Exception:
+            pass
         wall = time.time() - self.t0
         os.makedirs(EVIDENCE_DIR, exist_ok=True)
         os.makedirs(os.path.join(EVIDENCE_DIR, "replay"), exist_ok=True)
